@@ -57,7 +57,8 @@ def build_harness(race=False):
 
 def build_lean(targets):
     """lake build of the model driver and the requested proof modules (no-op when up to date)."""
-    p = sh(["lake", "build"] + list(targets), cwd=LEAN, timeout=7200, check=False)
+    env = dict(os.environ, LEAN_NUM_THREADS=str(max(NPROC, 8)))
+    p = sh(["lake", "build"] + list(targets), cwd=LEAN, env=env, timeout=7200, check=False)
     return p.returncode == 0, p.stdout
 
 
